@@ -1,5 +1,5 @@
 (* Properties_C08.v — C08: what the encoders produce, the library's own receivers accept unchanged. *)
-From Via Require Import M_Char M_Encode M_Parse M_Receive P_C08 P_C02 P_C08b P_C08c P_C08d P_C08e.
+From Via Require Import M_Char M_Encode M_Parse M_Receive P_C08 P_C02 P_C08b P_C08c P_C08d P_C08e P_C08f P_C08g P_C08h.
 Local Open Scope N_scope.
 
 (* every header name the library defines (all ids of header_field::id, regenerated from the source)
@@ -86,6 +86,115 @@ Proof.
   - cbn [within]. vm_compute. repeat split; intros; discriminate.
 Qed.
 
+(* a whole request as tx_request::message writes it - request line, the caller's header lines, the Content-Length line the
+   encoder adds, the empty line - followed by its body: received back as one valid request with the same method,
+   target, version, fields and body, whatever follows it on the connection *)
+Theorem C08_request_message_roundtrip : forall cfg m u ma mi hs body rest,
+  let L := c_lim cfg in
+  let n := nlen body in
+  let hs' := hs ++ [cl_line n] in
+  let F := fold_left add_line hs' [] in
+  forallb isupper m = true -> m <> [] -> nlen m <= max_method L ->
+  forallb uri_char u = true -> u <> [] -> nlen u <= max_uri L ->
+  isdigit ma = true -> isdigit mi = true -> 1 <= max_ws L ->
+  Forall (line_ok L) hs' -> within L [] 0 hs' ->
+  request_adds_content_length (mk_tx_request m u ma mi (lines_bytes hs)) = true ->
+  (ma = 49 -> mi = 49 -> exists hv, fields_find hf_LC_HOST F = Some hv /\ hv <> []) ->
+  fields_find hf_LC_TRANSFER_ENCODING F = None ->
+  fields_find hf_LC_CONTENT_LENGTH F = Some (to_dec_string n) ->
+  str_eqb m method_HEAD = false -> str_eqb m method_TRACE = false ->
+  n <= c_max_content cfg -> n <= LONG_MAX ->
+  exists v1, receive cfg (rv_init cfg) (request_message (mk_tx_request m u ma mi (lines_bytes hs)) n ++ body ++ rest) = (v1, rest, RX_VALID) /\
+             rq_line (rv_req v1) = mk_rl m u ma mi R_VALID 1 true false /\
+             hd_fields (rq_headers (rv_req v1)) = F /\ rv_body v1 = body.
+Proof. exact request_message_roundtrip. Qed.
+
+(* non-vacuity: POST /a with a Host and one more header line and a 3-byte body meets every premise *)
+Example C08_example_request_message :
+  let cfg := mk_rcfg (mk_limits 8190 8 100 65534 1024 8 65534 65534 false) 1048576 1048576 true true false in
+  let hs := [([72;111;115;116], [104]); ([88;45;65], [49])] in
+  let body := [120;121;122] in
+  let hs' := hs ++ [cl_line (nlen body)] in
+  Forall (line_ok (c_lim cfg)) hs' /\ within (c_lim cfg) [] 0 hs' /\
+  request_adds_content_length (mk_tx_request [80;79;83;84] [47;97] 49 49 (lines_bytes hs)) = true /\
+  fields_find hf_LC_HOST (fold_left add_line hs' []) = Some [104] /\
+  fields_find hf_LC_TRANSFER_ENCODING (fold_left add_line hs' []) = None /\
+  fields_find hf_LC_CONTENT_LENGTH (fold_left add_line hs' []) = Some (to_dec_string (nlen body)) /\
+  snd (receive cfg (rv_init cfg) (request_message (mk_tx_request [80;79;83;84] [47;97] 49 49 (lines_bytes hs)) 3 ++ body ++ [71])) = RX_VALID.
+Proof.
+  split; [|split; [|vm_compute; repeat split]].
+  - repeat constructor; cbn; try discriminate; try lia.
+  - cbn [within]. vm_compute. repeat split; intros; discriminate.
+Qed.
+
+(* the same for a whole response as tx_response::message writes it, received by the client's response_receiver *)
+Theorem C08_response_message_roundtrip : forall cfg st reason ma mi hs body rest,
+  let L := cc_lim cfg in
+  let n := nlen body in
+  let hs' := hs ++ [cl_line n] in
+  let F := fold_left add_line hs' [] in
+  isdigit ma = true -> isdigit mi = true -> st <= max_status L -> st <= LONG_MAX ->
+  forallb reason_char reason = true -> (match reason with c :: _ => isblank c = false | [] => True end) ->
+  nlen reason <= max_reason L -> 1 <= max_ws L ->
+  Forall (line_ok L) hs' -> within L [] 0 hs' ->
+  response_adds_content_length (mk_tx_response st reason ma mi (lines_bytes hs)) = true ->
+  fields_find hf_LC_TRANSFER_ENCODING F = None ->
+  fields_find hf_LC_CONTENT_LENGTH F = Some (to_dec_string n) ->
+  n <= LONG_MAX ->
+  exists v1, creceive cfg (cv_init cfg) (response_message (mk_tx_response st reason ma mi (lines_bytes hs)) n ++ body ++ rest) = (v1, rest, RX_VALID) /\
+             rp_line (cv_rsp v1) = mk_sl st reason ma mi S_VALID 1 true true false /\
+             hd_fields (rp_headers (cv_rsp v1)) = F /\ cv_body v1 = body.
+Proof. exact response_message_roundtrip. Qed.
+
+Example C08_example_response_message :
+  let cfg := mk_ccfg (mk_limits 0 0 65534 9223372036854775807 65534 254 65534 65534 false) 1048576 1048576 in
+  let hs := [([83;101;114;118;101;114], [118])] in
+  let body := [111;107] in
+  let hs' := hs ++ [cl_line (nlen body)] in
+  Forall (line_ok (cc_lim cfg)) hs' /\ within (cc_lim cfg) [] 0 hs' /\
+  response_adds_content_length (mk_tx_response 200 [79;75] 49 49 (lines_bytes hs)) = true /\
+  fields_find hf_LC_TRANSFER_ENCODING (fold_left add_line hs' []) = None /\
+  fields_find hf_LC_CONTENT_LENGTH (fold_left add_line hs' []) = Some (to_dec_string (nlen body)) /\
+  snd (creceive cfg (cv_init cfg) (response_message (mk_tx_response 200 [79;75] 49 49 (lines_bytes hs)) 2 ++ body)) = RX_VALID.
+Proof.
+  split; [|split; [|vm_compute; repeat split]].
+  - repeat constructor; cbn; try discriminate; try lia.
+  - cbn [within]. vm_compute. repeat split; intros; discriminate.
+Qed.
+
+(* chunk framing: the size line chunk_header writes (hexadecimal size, optional "; extension") is read back *)
+Theorem C08_chunk_header_roundtrip : forall L mx size ext rest,
+  size <= mx -> size <= LONG_MAX -> 1 <= max_ws L ->
+  forallb ext_char ext = true -> (match ext with c :: _ => isblank c = false | [] => True end) ->
+  nlen (chunk_header_string size ext) <= max_line L ->
+  exists k1, ck_parse L (ck_init mx) (chunk_header_string size ext ++ rest) = (k1, rest, Done) /\
+             ck_size k1 = size /\ ck_ext k1 = ext /\ ck_hex k1 = to_hex_string size /\ ck_valid k1 = true /\ ck_max k1 = mx /\ ck_fail k1 = false.
+Proof. exact chunk_header_roundtrip. Qed.
+
+(* a whole chunk - size line, data, CR LF - for any data (all 256 byte values) within the chunk limit *)
+Theorem C08_chunk_roundtrip : forall L mx data ext rest,
+  data <> [] -> nlen data <= mx -> nlen data <= LONG_MAX -> 1 <= max_ws L ->
+  forallb ext_char ext = true -> (match ext with c :: _ => isblank c = false | [] => True end) ->
+  nlen (chunk_header_string (nlen data) ext) <= max_line L ->
+  exists k, rc_parse L (rc_init mx) (chunk_header_string (nlen data) ext ++ data ++ [13; 10] ++ rest) = (k, rest, Done) /\
+            rc_data k = data /\ ck_size (rc_hdr k) = nlen data /\ ck_ext (rc_hdr k) = ext /\ rc_valid k = true /\ rc_fail k = false.
+Proof. exact chunk_roundtrip. Qed.
+
+(* the last chunk with its trailer lines *)
+Theorem C08_last_chunk_roundtrip : forall L mx ext ts rest,
+  1 <= max_ws L -> forallb ext_char ext = true -> (match ext with c :: _ => isblank c = false | [] => True end) ->
+  nlen (chunk_header_string 0 ext) <= max_line L ->
+  Forall (line_ok L) ts -> within L [] 0 ts ->
+  exists k, rc_parse L (rc_init mx) (last_chunk_string ext (lines_bytes ts) ++ rest) = (k, rest, Done) /\
+            ck_size (rc_hdr k) = 0 /\ ck_ext (rc_hdr k) = ext /\ rc_data k = [] /\
+            hd_fields (rc_trailers k) = fold_left add_line ts [] /\ rc_valid k = true.
+Proof. exact last_chunk_roundtrip. Qed.
+
+Example C08_example_chunk :
+  let L := mk_limits 8190 8 100 65534 1024 8 65534 65534 false in
+  exists k, rc_parse L (rc_init 1048576) (chunk_header_string 3 [120;61;49] ++ [0;255;13] ++ [13;10] ++ [48]) = (k, [48], Done) /\ rc_data k = [0;255;13].
+Proof. eexists. vm_compute. split; reflexivity. Qed.
+
 Example C08_example_request_line :
   rl_parse (mk_limits 8190 8 100 65534 1024 8 65534 65534 false) rl_init
     (request_line_string (mk_tx_request [80;85;84] [47;97;63;98;61;49] 49 49 []) ++ [72]) =
@@ -101,3 +210,8 @@ Print Assumptions C08_content_length_roundtrip.
 Print Assumptions C08_status_line_roundtrip.
 Print Assumptions C08_header_block_roundtrip.
 Print Assumptions C08_request_head_roundtrip.
+Print Assumptions C08_request_message_roundtrip.
+Print Assumptions C08_response_message_roundtrip.
+Print Assumptions C08_chunk_header_roundtrip.
+Print Assumptions C08_chunk_roundtrip.
+Print Assumptions C08_last_chunk_roundtrip.
